@@ -88,6 +88,24 @@ TEXT = {
           "call data) is refused, so the refund-always-possible theorem transfers to the code for non-embedded senders only.",
   "technique": "Lean 4 proof over the ledger state machine + differential replay of accepted blocks + exact-refund monitor",
  },
+ "C03": {
+  "text": "Supervisor.ApplyBlock (getContext, the nine checks of accountBlockVerifier.all, enoughPlasma/enoughFunds/"
+          "applySend/contract-receive regeneration compare, the four checks of accountBlockTransactionVerifier.all) as a "
+          "pure decision function over the block's fields and explicit context facts; kernel-checked: every accepted "
+          "block satisfies the property's sentence ValidBlock (verify_sound, for all blocks and all contexts), any "
+          "mutation is rejected or valid again (mutation_closed), acceptance is exactly ValidBlock plus an explicit list of "
+          "admission conditions (verify_complete, verify_exact; honest user send / user receive / contract receive "
+          "instances for non-vacuity), the check order of the model equals the order extracted from the tree's AST. "
+          "Tied to the code by the verify stream: ~300 candidates per base block on real node states, verdict and "
+          "reason (52 distinct reasons reached) compared with the model, and a statement-only monitor on every "
+          "accepted candidate.",
+  "design_ref": "§3 C03",
+  "note": "Cryptography, PoW hash, embedded method table and contract-block regeneration are oracle facts; the decision "
+          "model is hand-written and tied by correspondence + the generated check order. Finding F20b (fixed by 48b97c9): altered "
+          "descendant-block content was accepted and stored under the recorded descendant hashes; the monitor produced the "
+          "concrete candidates; now delivered_descendant_content_irrelevant + regenerated_descendants_adopted.",
+  "technique": "Lean 4 proof over a decision-procedure model + AST-extracted check order + differential mutation stream + statement monitor",
+ },
  "C07": {
   "text": "Kernel-checked on the EXECUTABLE manager model (Ldb = ldbManager, cache-free Get) for every reachable state "
           "(any sequence of frontier commits, commits on other parents, pops; ghost history invariant proved by "
